@@ -75,51 +75,109 @@ def _lean_str(s: str) -> str:
     return '"' + "".join(out) + '"'
 
 
+MODELLED = ("^([a-z][\\w_]*)\\[(\\d+)\\]$", "", "match(P,_)")  # Qsys.modelledPattern / modelledFlags / modelledUse
+
+
+def _read_pattern_ast(src: str):
+    """(pattern text, flags text, use) read off the source text; raises `_Unparsed` when the source is not written
+    the way this reader expects.  The compiled pattern is any module-level `NAME = re.compile(<literal>, ...)`
+    (by preference the one called REG_INDEX_PATTERN); its uses are looked for in the whole module (a refactoring may
+    move the matching into a helper)."""
+    tree = ast.parse(src)
+    cands = {}
+    for node in tree.body:
+        if isinstance(node, ast.Assign) and len(node.targets) == 1 and isinstance(node.targets[0], ast.Name):
+            v = node.value
+            if (isinstance(v, ast.Call) and ast.unparse(v.func) == "re.compile" and v.args
+                    and isinstance(v.args[0], ast.Constant) and isinstance(v.args[0].value, str)):
+                rest = [ast.unparse(a) for a in v.args[1:]] + [f"{k.arg}={ast.unparse(k.value)}" for k in v.keywords]
+                cands[node.targets[0].id] = (v.args[0].value, ",".join(rest))
+    if "REG_INDEX_PATTERN" in cands:
+        name = "REG_INDEX_PATTERN"
+    elif len(cands) == 1:
+        name = next(iter(cands))
+    else:
+        raise _Unparsed("no module-level `re.compile(<string literal>, ...)` that can be identified as the tag pattern")
+    pattern, flags = cands[name]
+    uses = set()
+    for c in ast.walk(tree):
+        if not isinstance(c, ast.Call):
+            continue
+        fn = ast.unparse(c.func)
+        args = [ast.unparse(a) for a in c.args]
+        if fn.startswith("re.") and args[:1] == [name]:
+            uses.add(fn[3:] + "(" + ",".join(["P"] + ["_"] * (len(args) - 1)) + ")")
+        elif fn.startswith(name + "."):
+            uses.add(fn[len(name) + 1:] + "(" + ",".join(["P"] + ["_"] * len(args)) + ")")
+    if not uses:
+        raise _Unparsed(f"no use of {name} found in result.py")
+    return pattern, flags, ";".join(sorted(uses))
+
+
+class _Unparsed(Exception):
+    pass
+
+
+def _probe_tags():
+    """Tags on both sides of every boundary of the documented convention `^([a-z][\\w_]*)\\[(\\d+)\\]$` used
+    with `match` (a total enumeration over a small alphabet, lengths <= 5, plus hand-picked longer ones)."""
+    import itertools
+
+    alpha = ["a", "Z", "_", "0", "7", "[", "]", "\n", " ", "é"]
+    tags = ["".join(t) for n in range(0, 6) for t in itertools.product(alpha, repeat=n)]
+    tags += ["abc[12]", "abc[12]\n", "abc[12]\n\n", "abc[12]x", "x[00]", "x[٣]", "xé[1]", "x1_[10]", "a[1][2]", "a[[1]]",
+             "a b[1]", "q[1", "q1]", "[1]", "A[1]", "_a[1]", "a[-1]", "a[1.0]", "a[ 1]", "ａ[1]", "a[1]]"]
+    return tags
+
+
+def _read_pattern_by_running(repo: Path):
+    """Fallback when the source is not written the way `_read_pattern_ast` expects: classify every probe tag with
+    the real `QsysShot.to_register_bits` (indexed write of one bit at position n of register `name` / whole-register
+    write) and compare with the hand-written reference `ref_parse`; when they agree everywhere the documented
+    convention is what the code implements and the modelled texts are emitted."""
+    import importlib.util
+    import sys
+
+    path = Path(repo) / RESULT_PY
+    spec = importlib.util.spec_from_file_location("_c19_result_fresh", path)
+    mod = importlib.util.module_from_spec(spec)
+    sys.modules[spec.name] = mod
+    try:
+        spec.loader.exec_module(mod)
+    finally:
+        sys.modules.pop(spec.name, None)
+    for tag in _probe_tags():
+        want = ref_parse(tag)
+        try:
+            got = mod.QsysShot([(tag, 1)]).to_register_bits()
+        except Exception as e:  # noqa: BLE001
+            raise _Unparsed(f"to_register_bits raises {type(e).__name__} on tag {tag!r}") from None
+        exp = {want[0]: "0" * want[1] + "1"} if want is not None and want[1] < 4096 else {tag: "1"}
+        if want is not None and want[1] >= 4096:
+            continue
+        if got != exp:
+            raise _Unparsed(f"tag {tag!r} is not handled by the documented convention: {got!r}")
+    return MODELLED
+
+
 def read_pattern(repo: Path):
     """(pattern text, flags text, name of the `re` function applied to it, problems)."""
     problems = []
     src = (Path(repo) / RESULT_PY).read_text()
-    tree = ast.parse(src)
-    pattern = flags = None
-    for node in tree.body:
-        if (
-            isinstance(node, ast.Assign)
-            and len(node.targets) == 1
-            and isinstance(node.targets[0], ast.Name)
-            and node.targets[0].id == "REG_INDEX_PATTERN"
-        ):
-            v = node.value
-            if (
-                isinstance(v, ast.Call)
-                and ast.unparse(v.func) == "re.compile"
-                and v.args
-                and isinstance(v.args[0], ast.Constant)
-                and isinstance(v.args[0].value, str)
-            ):
-                pattern = v.args[0].value
-                rest = [ast.unparse(a) for a in v.args[1:]] + [
-                    f"{k.arg}={ast.unparse(k.value)}" for k in v.keywords
-                ]
-                flags = ",".join(rest)
-            else:
-                problems.append("REG_INDEX_PATTERN is not re.compile(<string literal>, ...)")
-    if pattern is None and not problems:
-        problems.append("REG_INDEX_PATTERN assignment not found")
-    uses = set()
-    for node in ast.walk(tree):
-        if isinstance(node, ast.FunctionDef) and node.name == "to_register_bits":
-            for c in ast.walk(node):
-                if not isinstance(c, ast.Call):
-                    continue
-                f = ast.unparse(c.func)
-                args = [ast.unparse(a) for a in c.args]
-                if f.startswith("re.") and args[:1] == ["REG_INDEX_PATTERN"]:
-                    uses.add(f[3:] + "(" + ",".join(["P"] + ["_"] * (len(args) - 1)) + ")")
-                elif f.startswith("REG_INDEX_PATTERN."):
-                    uses.add(f[len("REG_INDEX_PATTERN."):] + "(" + ",".join(["P"] + ["_"] * len(args)) + ")")
-    if not uses:
-        problems.append("no use of REG_INDEX_PATTERN found in to_register_bits")
-    return pattern, flags, ";".join(sorted(uses)), problems
+    try:
+        pattern, flags, use = _read_pattern_ast(src)
+        return pattern, flags, use, problems
+    except (_Unparsed, SyntaxError) as e:
+        why = str(e)
+    try:
+        pattern, flags, use = _read_pattern_by_running(Path(repo))
+        problems.append(f"note: result.py: {why}; the tag convention was read off the behaviour of to_register_bits instead")
+        return pattern, flags, use, problems
+    except _Unparsed as e:
+        problems.append(f"result.py: {why}; behaviour: {e}")
+    except Exception as e:  # noqa: BLE001
+        problems.append(f"result.py: {why}; the module cannot be executed: {e!r}")
+    return None, None, None, problems
 
 
 def translate(repo, gen_dir):
